@@ -15,6 +15,10 @@
                                               deliver on EOF, buffer reset)
      MConnection.recvRoutine dispatch      -> recv_item         (ping/pong, unknown channel, unknown
                                               packet type, oversize/undecodable -> stopForError)
+   The protobuf framing is not modelled: whether a raw packet is over the reader's size limit
+   (maxPacketMsgSize) is part of the item ([WOversize]).  With the repair of finding F34 that
+   limit is computed for the largest channel id, so every packet nextPacketMsg produces fits it
+   for every channel id in a byte (before, full packets on channels >= 0x80 were 1 byte over).
    Layer B (reactor guards), consensus/reactor.go + types/{proposal,vote,part_set,block}.go +
    libs/bits/bit_array.go: the ValidateBasic predicates of the nine consensus messages and the
    sizes/indices the PeerState handlers allocate/index with (see the second half of the file). *)
@@ -305,7 +309,7 @@ Fixpoint drain (fuel : nat) (maxsz : nat) (s : sys) : sys :=
 Record bitarr := { ba_present : bool; ba_bits : Z; ba_elems : Z }.
 Definition ba_size (b : bitarr) : Z := if ba_present b then ba_bits b else 0.
 Definition num_elems (bits : Z) : Z := (bits + 63) / 64.
-(* BitArray.ValidateBasic (added by the repair of finding F26): nil is fine, otherwise
+(* BitArray.ValidateBasic (added by the repair of finding F33): nil is fine, otherwise
    Bits >= 0 and len(Elems) == (Bits+63)/64 *)
 Definition ba_validate_basic (b : bitarr) : bool :=
   negb (ba_present b) || ((0 <=? ba_bits b) && (ba_elems b =? num_elems (ba_bits b))).
@@ -349,8 +353,11 @@ Inductive cmsg :=
 
 (* ValidateBasic of each message, checks in the order of the code (consensus/reactor.go,
    types/proposal.go, types/vote.go, types/part_set.go), with the two repairs:
-   F21  Proposal.ValidateBasic bounds BlockID.PartSetHeader.Total by MaxBlockPartsCount;
-   F26  the three messages carrying a BitArray call BitArray.ValidateBasic. *)
+   F21  ProposalMessage.ValidateBasic bounds Proposal.BlockID.PartSetHeader.Total by
+        MaxBlockPartsCount (types.Proposal.ValidateBasic itself is unchanged);
+   F33  the three messages carrying a BitArray call BitArray.ValidateBasic.
+   [step] of MNewRoundStep is the uint32 on the wire: MsgFromProto refuses values above 255
+   (SafeConvertUint8) and IsValid wants 1..8, together 1 <= step <= 8. *)
 Definition validate_basic (m : cmsg) : bool :=
   match m with
   | MNewRoundStep h r s _ lcr =>
